@@ -13,32 +13,36 @@ def lineOf (C : Cfg) (l : Nat) : LineCfg := C.lines.getD l default
 def netOf (C : Cfg) (n : Nat) : NetCfg := C.nets.getD n default
 def secOf (C : Cfg) (k : Nat) : SecCfg := C.secs.getD k default
 
+def wfLine (C : Cfg) (l : Nat) : Bool :=
+  let lc := lineOf C l
+  decide (lc.net < C.nets.length) && decide (lc.sec < C.secs.length) &&
+  (netOf C lc.net).lines.contains l && (netOf C lc.net).secs.contains lc.sec && (secOf C lc.sec).lines.contains l &&
+  lc.discons.all (fun d => decide (d < C.disconLine.length) && C.disconLine.getD d 0 == l)
+
+def wfSw (C : Cfg) (n k : Nat) : Sw → Bool
+  | .discon d => decide (d < C.disconLine.length) && (lineOf C (C.disconLine.getD d 0)).net == n
+  | .breaker c => c == (netOf C n).cb && (secOf C k).lines.contains (netOf C n).connLine
+
+def wfSec (C : Cfg) (n k : Nat) : Bool :=
+  decide (k < C.secs.length) &&
+  (secOf C k).lines.all (fun l => decide (l < C.lines.length) && (lineOf C l).sec == k && (lineOf C l).net == n) &&
+  (secOf C k).switches.all (wfSw C n k)
+
+def wfNet (C : Cfg) (n : Nat) : Bool :=
+  let nc := netOf C n
+  decide (nc.cb < C.cbLine.length) && C.cbLine.getD nc.cb 0 == nc.connLine &&
+  decide (nc.connLine < C.lines.length) && (lineOf C nc.connLine).net == n &&
+  nc.lines.all (fun l => decide (l < C.lines.length) && (lineOf C l).net == n) &&
+  nc.children.all (fun m => decide (m < C.nets.length) && m != n) &&
+  nc.secs.all (wfSec C n) &&
+  -- breakers and sections of different networks are different
+  (List.range C.nets.length).all (fun m => m == n || ((netOf C m).cb != nc.cb && nc.secs.all (fun k => !(netOf C m).secs.contains k)))
+
 /-- every index in range, lines / sections / switches of a network belong to it, networks are disjoint -/
 def wfB (C : Cfg) : Bool :=
-  -- lines: network and section in range and consistent with the network's / section's lists
-  (List.range C.lines.length).all (fun l =>
-    let lc := lineOf C l
-    decide (lc.net < C.nets.length) && decide (lc.sec < C.secs.length) &&
-    (netOf C lc.net).lines.contains l && (netOf C lc.net).secs.contains lc.sec && (secOf C lc.sec).lines.contains l &&
-    lc.discons.all (fun d => decide (d < C.disconLine.length) && C.disconLine.getD d 0 == l)) &&
-  -- disconnectors sit on existing lines
+  (List.range C.lines.length).all (wfLine C) &&
   C.disconLine.all (fun l => decide (l < C.lines.length)) &&
-  -- networks
-  (List.range C.nets.length).all (fun n =>
-    let nc := netOf C n
-    decide (nc.cb < C.cbLine.length) && C.cbLine.getD nc.cb 0 == nc.connLine &&
-    decide (nc.connLine < C.lines.length) && (lineOf C nc.connLine).net == n &&
-    nc.lines.all (fun l => decide (l < C.lines.length) && (lineOf C l).net == n) &&
-    nc.children.all (fun m => decide (m < C.nets.length) && m != n) &&
-    nc.secs.all (fun k =>
-      decide (k < C.secs.length) &&
-      (secOf C k).lines.all (fun l => decide (l < C.lines.length) && (lineOf C l).sec == k && (lineOf C l).net == n) &&
-      (secOf C k).switches.all (fun sw =>
-        match sw with
-        | .discon d => decide (d < C.disconLine.length) && (lineOf C (C.disconLine.getD d 0)).net == n
-        | .breaker c => c == nc.cb && (secOf C k).lines.contains nc.connLine)) &&
-    -- breakers of different networks are different
-    (List.range C.nets.length).all (fun m => m == n || (netOf C m).cb != nc.cb))
+  (List.range C.nets.length).all (wfNet C)
 
 /-- all state vectors have the length the configuration prescribes -/
 def sizeOK (C : Cfg) (s : St) : Bool :=
@@ -61,7 +65,11 @@ def headNet (C : Cfg) (s : St) (n : Nat) : Bool :=
   let k0 := (lineOf C (netOf C n).connLine).sec
   gb s.secConn k0 || (s.failedSecs.getD n []).contains k0
 
+/-- entries of a controller's failed-section list are sections of its own network -/
+def fsNet (C : Cfg) (s : St) (n : Nat) : Bool :=
+  (s.failedSecs.getD n []).all (fun k => (netOf C n).secs.contains k)
+
 def invJ (C : Cfg) (s : St) : Bool :=
-  sizeOK C s && (List.range C.nets.length).all (fun n => safeNet C s n && outNet C s n && headNet C s n)
+  sizeOK C s && (List.range C.nets.length).all (fun n => safeNet C s n && outNet C s n && headNet C s n && fsNet C s n)
 
 end Relsad.Control
